@@ -36,7 +36,10 @@ def supported(cls: str, size: Tuple[int, ...]) -> bool:
         return L[0] >= 2 and L[1] >= 2 and L[2] >= 3
     if cls == 'Color3DCode':
         return all(l >= 2 and l % 2 == 0 for l in L)
-    if cls in ('Color488Code', 'Color666ToricCode'):
+    if cls == 'Color488Code':
+        # L_x x L_y as documented (rectangular sizes since the repair of the logical operators, D14)
+        return all(l >= 1 for l in L)
+    if cls == 'Color666ToricCode':
         # documented as L_x x L_y; only square sizes build a valid code (finding D14)
         return all(l >= 1 for l in L) and L[0] == L[1]
     raise KeyError(cls)
@@ -44,7 +47,7 @@ def supported(cls: str, size: Tuple[int, ...]) -> bool:
 
 def documented(cls: str, size: Tuple[int, ...]) -> bool:
     """What the class documents as accepted (used to look for findings outside `supported`)."""
-    if cls in ('Color488Code', 'Color666ToricCode'):
+    if cls == 'Color666ToricCode':
         return all(l >= 1 for l in size)
     return supported(cls, size)
 
